@@ -2,7 +2,7 @@
 import importlib
 
 PROPS = {
-    "C13": [("u_discover", "quick"), ("u_topo", "quick"), ("u_diagord", "quick"), ("u_link", "quick")],
+    "C13": [("u_discover", "quick"), ("u_topo", "quick"), ("u_diagord", "quick"), ("u_link", "quick"), ("u_loadpkg", "quick")],
     "C08": [("u_capt", "quick"), ("u_closenv", "quick"), ("u_liftty", "quick")],
     "C03": [("u_msubst", "quick"), ("u_munify", "quick"), ("u_tmono", "quick")],
     "C05": [("u_scope", "quick")],
